@@ -159,6 +159,19 @@ func subscriptionGoroutines() (int, string) {
 	return cnt, which
 }
 
+// pebblesStacks returns the stacks of the goroutines that run code of the gateway (witness of a hang or leak).
+func pebblesStacks() string {
+	buf := make([]byte, 1<<20)
+	n := runtime.Stack(buf, true)
+	var out []string
+	for _, g := range strings.Split(string(buf[:n]), "\n\n") {
+		if strings.Contains(g, "buildbuildio/pebbles") && !strings.Contains(g, "verif/harness/props.checkC18") {
+			out = append(out, g)
+		}
+	}
+	return strings.Join(out, "\n\n")
+}
+
 func settle() { time.Sleep(1500 * time.Microsecond) }
 
 func checkC18(c *TeardownCase) (*ev.Failure, map[string]bool) {
@@ -343,9 +356,7 @@ func checkC18(c *TeardownCase) (*ev.Failure, map[string]bool) {
 	select {
 	case <-cc.HandlerDone:
 	case <-time.After(settleLimit):
-		buf := make([]byte, 1<<16)
-		buf = buf[:runtime.Stack(buf, true)]
-		return ev.Failf("deadlock:handler", "the subscription handler did not return within 30s after the client disconnected\n%s", trunc(string(buf), 3000)), info
+		return ev.Failf("deadlock:handler", "the subscription handler did not return within 30s after the client disconnected\n%s", trunc(pebblesStacks(), 12000)), info
 	}
 	if cc.HandlerPanic != "" {
 		return ev.Failf("panic:handler", "%s", cc.HandlerPanic), info
@@ -359,10 +370,10 @@ func checkC18(c *TeardownCase) (*ev.Failure, map[string]bool) {
 	}
 	for i, s := range subs {
 		if s.up != nil && !s.up.WaitClosed(settleLimit) {
-			return ev.Failf("upstream-open", "the upstream subscription of s%d was not closed within 30s after the connection ended", i), info
+			return ev.Failf("upstream-open", "the upstream subscription of s%d was not closed within 30s after the connection ended\n%s", i, trunc(pebblesStacks(), 12000)), info
 		}
 		if s.ws != nil && !s.ws.WaitClosed(settleLimit) {
-			return ev.Failf("upstream-open", "the upstream websocket of s%d was not closed within 30s after the connection ended", i), info
+			return ev.Failf("upstream-open", "the upstream websocket of s%d was not closed within 30s after the connection ended\n%s", i, trunc(pebblesStacks(), 12000)), info
 		}
 	}
 	deadline := time.Now().Add(settleLimit)
@@ -373,7 +384,7 @@ func checkC18(c *TeardownCase) (*ev.Failure, map[string]bool) {
 			break
 		}
 		if time.Now().After(deadline) {
-			return ev.Failf("leak:"+which, "%d goroutine(s) of the subscription machinery remain 30s after the connection ended (e.g. %s)", n, which), info
+			return ev.Failf("leak:"+which, "%d goroutine(s) of the subscription machinery remain 30s after the connection ended (e.g. %s)\n%s", n, which, trunc(pebblesStacks(), 12000)), info
 		}
 		time.Sleep(time.Millisecond)
 	}
